@@ -13,9 +13,16 @@
    by-name index: C20_rel_is_remainder, C20_name_is_relative_path,
    C20_name_determines_file, C20_index_holds_every_hook - for every tree, in particular
    trees in which the hooks directory's own path (its last element, several trailing
-   elements, the whole absolute path) occurs again below it.  No hypothesis. *)
+   elements, the whole absolute path) occurs again below it.  No hypothesis.
+
+   The file-name rule, character by character (part 3, at the end of this file):
+   C20_ext_is_last_dot_suffix, C20_last_dot_suffix_spec, C20_two_readings_agree,
+   C20_excluded_names, C20_file_rule, C20_letters_need_the_dot, C20_bare_letters_are_a_name,
+   C20_suffix_after_extension (all for EVERY byte string, no hypothesis beyond "a path element
+   has no separator"), C20_top_level_file_rule and C20_model_satisfies_P_files (file by file
+   through discovery and the --config round; hypothesis wf_children as above). *)
 From Coq Require Import Sorted.
-From Verif Require Import Common C20_Model C20_Spec C20_Corr C20_Proofs.
+From Verif Require Import Common C20_Model C20_Spec C20_Corr C20_Proofs C20_NameProofs.
 Local Open Scope N_scope.
 
 (* the discovered hooks are exactly the files meeting the conditions of the statement *)
@@ -155,3 +162,116 @@ Example C20_hyp_met :
   /\ ex_beh (rel (working_dir [47; 119] [104]) [47;119;47;104;47;97;47;98]) <> BOk
   /\ result (init [47; 119] [104] ex_tree ex_beh) = ErrCreating [97; 47; 98].
 Proof. repeat split; try (vm_compute; reflexivity). vm_compute. discriminate. Qed.
+
+(* ==================================================================== *)
+(* part 3: the file-name rule, character by character                    *)
+(* ==================================================================== *)
+
+(* the model's filepath.Ext (a scan from the end of the name) yields the suffix from the LAST
+   dot of the name - for every name that is a single path element *)
+Theorem C20_ext_is_last_dot_suffix : forall n, ~ In slash n -> ext n = last_dot_suffix n.
+Proof. exact ext_last_dot. Qed.
+Print Assumptions C20_ext_is_last_dot_suffix.
+
+(* ... and that suffix is: empty for a name without a dot; otherwise the name is pre ++ "." ++ s
+   with no dot in s, and the extension is "." ++ s *)
+Theorem C20_last_dot_suffix_spec : forall n,
+  (~ In dot n /\ last_dot_suffix n = [])
+  \/ exists pre s, n = pre ++ dot :: s /\ ~ In dot s /\ last_dot_suffix n = dot :: s.
+Proof. exact last_dot_suffix_spec. Qed.
+Print Assumptions C20_last_dot_suffix_spec.
+
+(* "the name ends in .yaml, .json, .md or .txt" and "the extension of the name is .yaml, .json,
+   .md or .txt" are the same condition, on every byte string *)
+Theorem C20_two_readings_agree : forall n, excluded_ending n = has_excluded_extension n.
+Proof. exact excluded_ending_extension. Qed.
+Print Assumptions C20_two_readings_agree.
+
+(* exactly which names checkExecutableHookFile reports as "file has wrong extension": those
+   that do not start with a dot and are pre ++ e for one of the four extensions e (pre may be
+   anything, also empty - but then the name starts with a dot) - equivalently those whose
+   extension is one of the four.  Nothing else: no case folding, no other separator. *)
+Theorem C20_excluded_names : forall n m,
+  (check_executable_hook_file n m = Some ErrFileHasWrongExtension
+     <-> hidden n = false /\ exists pre e, In e excluded_exts /\ n = pre ++ e)
+  /\ (check_executable_hook_file n m = Some ErrFileHasWrongExtension
+     <-> hidden n = false /\ In (last_dot_suffix n) excluded_exts).
+Proof. exact excluded_names. Qed.
+Print Assumptions C20_excluded_names.
+
+(* a file passes the check iff it carries an execute bit, its name does not start with a dot and
+   does not end in one of the four extensions *)
+Theorem C20_file_rule : forall n m,
+  check_executable_hook_file n m = None
+  <-> has_exec_bit m = true /\ hidden n = false
+      /\ ~ (exists pre e, In e excluded_exts /\ n = pre ++ e).
+Proof. exact file_rule. Qed.
+Print Assumptions C20_file_rule.
+
+(* the letters yaml / json / md / txt at the end of a name exclude it only when the character
+   in front of them is the dot itself: with ANY other character c there (and anything before
+   it) the name is not excluded - cmd, to_json, dump-yaml, ctxt, 001-restart-systemd *)
+Theorem C20_letters_need_the_dot : forall pre c l,
+  In l ext_letters -> excluded_ending (pre ++ c :: l) = N.eqb c dot.
+Proof. exact letters_need_the_dot. Qed.
+Print Assumptions C20_letters_need_the_dot.
+
+(* ... and the bare words yaml, json, md, txt are ordinary names *)
+Theorem C20_bare_letters_are_a_name : forall l,
+  In l ext_letters -> excluded_ending l = false /\ hidden l = false.
+Proof. exact bare_letters_not_excluded. Qed.
+Print Assumptions C20_bare_letters_are_a_name.
+
+(* anything without a dot behind one of the extensions (a.yamlx, a.md~, a.json5) makes the
+   name an ordinary one *)
+Theorem C20_suffix_after_extension : forall pre e s,
+  In e excluded_exts -> s <> [] -> ~ In dot s -> excluded_ending (pre ++ e ++ s) = false.
+Proof. exact suffix_after_extension. Qed.
+Print Assumptions C20_suffix_after_extension.
+
+(* through discovery: a file directly in the hooks directory is discovered (under its own
+   name) iff the rule on its name and its mode says so *)
+Theorem C20_top_level_file_rule : forall parent root cs n m,
+  wf_children cs = true -> In (File n m) cs ->
+  (In n (discover parent root cs) <-> file_ok n m = true).
+Proof. exact top_level_file_rule. Qed.
+Print Assumptions C20_top_level_file_rule.
+
+(* file by file: every file of the tree occurs among the discovered paths exactly once when it
+   meets the conditions of the statement and never otherwise; a file that is not a hook is
+   never run with --config, a hook exactly once when Init succeeds, at most once when it fails *)
+Theorem C20_model_satisfies_P_files : forall i,
+  wf_children (i_children i) = true -> P_files i (model_of i) = true.
+Proof. exact P_files_model. Qed.
+Print Assumptions C20_model_satisfies_P_files.
+
+(* non-vacuity, and the rule at work on the names of the task: one flat hooks directory (all
+   files 0755) - the hooks are exactly the names without one of the four extensions that do
+   not start with a dot *)
+Definition ex_names : list tree := map (fun n => File n 493)
+  [ [116;111;95;106;115;111;110];                         (* to_json       hook *)
+    [99;109;100];                                         (* cmd           hook *)
+    [100;117;109;112;45;121;97;109;108];                  (* dump-yaml     hook *)
+    [99;116;120;116];                                     (* ctxt          hook *)
+    [120;121;97;109;108];                                 (* xyaml         hook *)
+    [97;46;121;97;109;108;120];                           (* a.yamlx       hook *)
+    [46;121;97;109;108];                                  (* .yaml         hidden *)
+    [97;46;89;65;77;76];                                  (* a.YAML        hook *)
+    [97;46;121;97;109;108;46;115;104];                    (* a.yaml.sh     hook *)
+    [121;97;109;108];                                     (* yaml          hook *)
+    [109;100];                                            (* md            hook *)
+    [97;46;121;97;109;108];                               (* a.yaml        excluded *)
+    [97;46;115;104;46;109;100];                           (* a.sh.md       excluded *)
+    [98;46;106;115;111;110];                              (* b.json        excluded *)
+    [110;46;116;120;116] ].                               (* n.txt         excluded *)
+Example C20_names_of_the_task :
+  wf_children ex_names = true
+  /\ discover [47; 119] [104] ex_names
+     = sort_strings [ [116;111;95;106;115;111;110]; [99;109;100]; [100;117;109;112;45;121;97;109;108]; [99;116;120;116];
+                      [120;121;97;109;108]; [97;46;121;97;109;108;120]; [97;46;89;65;77;76];
+                      [97;46;121;97;109;108;46;115;104]; [121;97;109;108]; [109;100] ]
+  /\ map (fun t => check_executable_hook_file (tree_name t) 493) (skipn 11 ex_names)
+     = [Some ErrFileHasWrongExtension; Some ErrFileHasWrongExtension; Some ErrFileHasWrongExtension; Some ErrFileHasWrongExtension]
+  /\ check_executable_hook_file [46;121;97;109;108] 493 = Some ErrFileIsHidden
+  /\ P_files (mkInput [47; 119] [104] ex_names [] true) (model_of (mkInput [47; 119] [104] ex_names [] true)) = true.
+Proof. repeat split; vm_compute; reflexivity. Qed.
